@@ -83,6 +83,8 @@ pub enum Prop {
     C05,
     C09,
     C17,
+    /// Ownership ledger over world-level histories (second part of C08).
+    C08,
     /// Transcript only (C20 differential mode); no oracle.
     C20,
 }
@@ -922,6 +924,15 @@ impl<'h, A: Kind, B: Kind, C: Kind> Run<'h, A, B, C> {
         if matches!(self.h.prop, Prop::C02 | Prop::C20) {
             self.check_alive();
         }
+        if self.h.prop == Prop::C08 {
+            // every value observable through the storages is currently owned by them
+            self.check_comps_as::<A>(0, Prop::C08);
+            self.check_comps_as::<B>(1, Prop::C08);
+            self.check_comps_as::<C>(2, Prop::C08);
+            if let Some(e) = ledger_errors().into_iter().next() {
+                fail!(self, Prop::C08, "ledger: {}", e);
+            }
+        }
         if matches!(self.h.prop, Prop::C05 | Prop::C09 | Prop::C20) {
             self.check_comps::<A>(0);
             self.check_comps::<B>(1);
@@ -1475,7 +1486,7 @@ impl<A: Kind, B: Kind, C: Kind> Hist<A, B, C>
         if r.viol.is_none() {
             r.tail();
         }
-        let out = Outcome {
+        let mut out = Outcome {
             key,
             next,
             violation: r.viol.take(),
@@ -1484,6 +1495,20 @@ impl<A: Kind, B: Kind, C: Kind> Hist<A, B, C>
             transcript: r.tr,
         };
         drop(r);
+        if self.prop == Prop::C08 && out.violation.is_none() {
+            // every history ends with the world (queued lazy actions included) being dropped
+            if let Some(e) = ledger_errors().into_iter().next() {
+                out.violation = Some(format!("ledger: at world drop: {}", e));
+            } else {
+                let live = ledger_live();
+                let (made, dropped) = ledger_zst_balance();
+                if !live.is_empty() {
+                    out.violation = Some(format!("ledger-leak: {} component values neither returned nor destroyed after the world was dropped", live.len()));
+                } else if made != dropped {
+                    out.violation = Some(format!("ledger-leak: zero-sized components: {} constructed, {} destroyed after the world was dropped", made, dropped));
+                }
+            }
+        }
         out
     }
 }
@@ -1604,6 +1629,7 @@ fn parse_prop(s: &str) -> Prop {
         "C05" => Prop::C05,
         "C09" => Prop::C09,
         "C17" => Prop::C17,
+        "C08" => Prop::C08,
         "C20" => Prop::C20,
         _ => machinery_error(&format!("mc-hist does not serve property {s}")),
     }
@@ -1695,6 +1721,27 @@ fn plan_inner(prop: Prop, thorough: bool) -> Vec<(usize, Config)> {
                             reg: reg0,
                             triples: false,
                             max_depth: if thorough { Some(6) } else { Some(5) },
+                        },
+                    )
+                })
+                .collect()
+        }
+        Prop::C08 => {
+            // world-level entry points: builders, lazy insert / insert_all / remove / builders,
+            // closures, entity deletion on every path, maintain (and none: queue dropped with the world)
+            let ks: Vec<usize> = if thorough { vec![0, 1, 2, 3, 4, 5] } else { vec![0, 1] };
+            ks.into_iter()
+                .map(|i| {
+                    (
+                        i,
+                        Config {
+                            kinds_name: "",
+                            name: "E3",
+                            alphabet: Alphabet::E3,
+                            n_create: 3,
+                            reg: reg0,
+                            triples: false,
+                            max_depth: if thorough { Some(5) } else { Some(4) },
                         },
                     )
                 })
@@ -1850,6 +1897,9 @@ pub fn main() {
         ],
         wall_s: t0.elapsed().as_secs_f64(),
     };
+    if cli.flag("--merge") {
+        crate::report::conclude_merge(&cli, "world_level_part", ev.coverage, findings);
+    }
     conclude(&cli, ev, findings);
 }
 
